@@ -45,7 +45,7 @@ const VALUES: [Option<&str>; 23] = [
     Some("x c "),
 ];
 
-const LINES: [&str; 32] = [
+const LINES: [&str; 38] = [
     "a",
     "a b",
     "a b c",
@@ -78,6 +78,13 @@ const LINES: [&str; 32] = [
     "x | a | b",
     "a b >f c",
     "v=1 >f a b",
+    // words that are not in command position inside compound-command headers
+    "for a in b; do c; done",
+    "for i in a b; do a; done",
+    "case a in b) a;; esac",
+    "case x in (a|b) c;; a) b;; esac",
+    "case a in esac",
+    "for i in a; do case b in a) c;; esac; done",
 ];
 
 // ------------------------------------------------------------------ refalias
@@ -219,6 +226,8 @@ fn refalias(line: &str, table: &[Option<&str>; 3], c_is_global: bool) -> Option<
     // true while nothing of the current command has been read: only then are reserved words recognised
     let mut at_start = true;
     let mut check_next = false;
+    // 0 = not in a case command, 1 = subject / `in` expected, 2 = pattern list, 3 = item body
+    let mut case_mode = 0u8;
     let mut steps = 0;
     while i < toks.len() {
         steps += 1;
@@ -233,6 +242,28 @@ fn refalias(line: &str, table: &[Option<&str>; 3], c_is_global: bool) -> Option<
             }
             Tok::Op(op) => {
                 out.push(op.clone());
+                if case_mode == 2 {
+                    // `(` and `|` belong to the pattern list; `)` ends it and the body begins
+                    if op == ")" {
+                        case_mode = 3;
+                        cmd_pos = true;
+                        at_start = true;
+                    } else {
+                        cmd_pos = false;
+                        at_start = false;
+                    }
+                    check_next = false;
+                    i += 1;
+                    continue;
+                }
+                if case_mode == 3 && op == ";;" {
+                    case_mode = 2;
+                    cmd_pos = false;
+                    at_start = false;
+                    check_next = false;
+                    i += 1;
+                    continue;
+                }
                 cmd_pos = op != ")";
                 at_start = cmd_pos;
                 check_next = false;
@@ -256,6 +287,32 @@ fn refalias(line: &str, table: &[Option<&str>; 3], c_is_global: bool) -> Option<
                 check_next = false;
             }
             Tok::Word(w, quoted) => {
+                // case command: subject, `in`, patterns and `esac` are never in command position
+                if case_mode == 1 || case_mode == 2 {
+                    if !quoted && w == "in" && case_mode == 1 {
+                        case_mode = 2;
+                    } else if !quoted && w == "esac" && case_mode == 2 {
+                        case_mode = 0;
+                    }
+                    out.push(w.clone());
+                    cmd_pos = false;
+                    at_start = false;
+                    check_next = false;
+                    i += 1;
+                    continue;
+                }
+                if case_mode == 3 && at_start && !quoted && w == "esac" {
+                    case_mode = 0;
+                }
+                if case_mode == 0 && at_start && !quoted && w == "case" {
+                    case_mode = 1;
+                    out.push(w.clone());
+                    cmd_pos = false;
+                    at_start = false;
+                    check_next = false;
+                    i += 1;
+                    continue;
+                }
                 let eligible = !quoted && (cmd_pos || check_next || global(w)) && !t.inhibit.contains(w) && lookup(w).is_some();
                 if eligible {
                     let val = lookup(w).unwrap();
@@ -277,7 +334,7 @@ fn refalias(line: &str, table: &[Option<&str>; 3], c_is_global: bool) -> Option<
                 } else if at_start && !quoted && matches!(w.as_str(), "if" | "then" | "else" | "elif" | "do" | "while" | "until" | "{" | "!") {
                     cmd_pos = true;
                     at_start = true;
-                } else if at_start && !quoted && matches!(w.as_str(), "fi" | "done" | "}") {
+                } else if at_start && !quoted && matches!(w.as_str(), "fi" | "done" | "}" | "esac") {
                     cmd_pos = false;
                     at_start = false;
                 } else {
